@@ -36,6 +36,10 @@ func ParseJWT(data []byte) (*JWT, error) {
 	if err = json.Unmarshal(hdr, &jwt.Header); err != nil {
 		return nil, fmt.Errorf("json.Unmarshal(header): %w", err)
 	}
+	if jwt.Header == nil {
+		// JSON null unmarshals into a map without error
+		return nil, fmt.Errorf("header is not a JSON object")
+	}
 
 	payload, err := util.DecodeAnyBase64(parts[1])
 	if err != nil {
@@ -43,6 +47,9 @@ func ParseJWT(data []byte) (*JWT, error) {
 	}
 	if err = json.Unmarshal(payload, &jwt.Payload); err != nil {
 		return nil, fmt.Errorf("json.Unmarshal(header): %w", err)
+	}
+	if jwt.Payload == nil {
+		return nil, fmt.Errorf("payload is not a JSON object")
 	}
 
 	jwt.Signature, err = util.DecodeAnyBase64(parts[2])
